@@ -24,10 +24,95 @@ def run(chk, tier, overlays=()):
     cow(chk, P)
     cloneptr(chk, P)
     noflow(chk, P)
+    relocate(chk, overlays)
+    chk.floor("RELOCATE", 7)
     chk.floor("HANDOUT", 5)
     chk.floor("EFFECT", 8)
     chk.floor("NOFLOW", 10)
-    chk.assumptions += ["Array_/ArrayView_ element order, exactly-once construction/destruction and growth are value/heap semantics and are not decided"]
+    chk.assumptions += ["Array_/ArrayView_ element order, element counts of relocated ranges and growth policy are value/heap semantics and are not decided; of 'exactly-once destruction' only the clause 'the buffer is not released while it holds live elements' is"]
+
+
+NO_DESTRUCT_HELPERS = {"deallocateNoDestruct": "documented: frees the buffer only; every caller destructs first (checked)",
+                       "reallocateNoDestructOrConstruct": "documented: no constructors or destructors are called; callers have already emptied the array (checked)",
+                       "reallocateIfAdvisable": "documented: no constructors or destructors are called; callers have already emptied the array (checked)"}
+
+
+def relocate(chk, overlays):
+    """Array_: the old element buffer is never released while it still holds live elements (the structural half of 'each element is destroyed exactly once')"""
+    chk.rule("RELOCATE", "Array_: every method that releases the element buffer (freeN(data()), directly or through the three documented ...NoDestruct helpers) destroys the "
+             "elements it held on every path before the release: by moveConstructThenDestructSource from data() (and, in the gap forms, from the gap position), by "
+             "destruct(begin..end) / clear(), or -- when it moves elements out with the raw range moveConstruct -- by a destruct of the same source range; only the documented "
+             "helpers may release without destroying")
+    units = units_matching(UNITS)
+    P = Program(extract(units, hdr=r"SimTKcommon/internal/Array\.h$", overlays=overlays))
+    A = [f for f in P.all_fns() if f.cls and f.cls.startswith("SimTK::Array_") and not f.cls.startswith("SimTK::ArrayView") and f.d.get("tmpl") == "pattern"]
+    chk.require(len(A) >= 60, "Array_ member patterns not found (%d)" % len(A))
+    last = lambda n: str(n).split("::")[-1]
+
+    def is_old(x):      # an expression denoting (a position in) the current buffer: data(), begin(), end()
+        return bool(sx_find(x, lambda y: y[0] in ("call", "dcall") and last(y[1]) in ("data", "begin", "end", "cbegin", "cend")))
+
+    def frees(e):
+        return e["k"] == "call" and last(e.get("fn", "")) == "freeN" and bool(call_args(e)) and is_old(call_args(e)[0])
+
+    def helper(e):
+        return e["k"] == "call" and last(e.get("fn", "")) in NO_DESTRUCT_HELPERS
+
+    def destroys_all(e):
+        if e["k"] != "call":
+            return False
+        n = last(e.get("fn", ""))
+        a = call_args(e)
+        if n == "clear":
+            return True
+        if n == "destruct" and len(a) == 2 and is_old(a[0]):
+            return True
+        if n == "moveConstructThenDestructSource" and len(a) == 3 and is_old(a[2]):
+            return True
+        return False
+    n = 0
+    for f in sorted(A, key=lambda f: (f.line, f.id)):
+        short = last(f.name)
+        rel_ev = [(b, i, e) for b, i, e in f.events(lambda e: frees(e) or helper(e))]
+        if not rel_ev:
+            continue
+        n += 1
+        key = "%s#%d" % (short, sum(1 for g in A if last(g.name) == short and g.line <= f.line))
+        if short in NO_DESTRUCT_HELPERS:
+            chk.ok("RELOCATE", key + ":documented-helper", f.loc, NO_DESTRUCT_HELPERS[short])
+        else:
+            hit = None
+            for b, i, e in rel_ev:
+                p = f.path_exists(None, lambda q, e=e: q is e, destroys_all, lift=0)
+                if p is not None:
+                    hit = (e, p)
+                    break
+            chk.judge(hit is None, "RELOCATE", key + ":elements-destroyed-before-release", f.loc,
+                      ("%s releases the element buffer (%s) on a path on which the elements it held were not destroyed" % (short, last(hit[0]["fn"]))) if hit else ("every path of %s to its release of the buffer destroys the elements first" % short), hit[1] if hit else None)
+        # raw range moves out of the old buffer need a destruct of the same source before the release
+        ptr_params = [p_[0] for p_ in f.d.get("params", []) if "*" in p_[1]]
+        for b, i, e in f.calls():
+            if last(e.get("fn", "")) != "moveConstruct" or len(call_args(e)) != 3:
+                continue
+            src = call_args(e)[2]
+            if not (is_old(src) or var_of(src) in ptr_params):
+                continue
+
+            def same_src(q, src=src):
+                if q["k"] != "call" or last(q.get("fn", "")) != "destruct" or len(call_args(q)) != 2:
+                    return False
+                a0, a1 = call_args(q)
+                whole = bool(sx_find(a0, lambda y: y[0] in ("call", "dcall") and last(y[1]) in ("begin", "data"))) and var_of(a0) is None and \
+                    bool(sx_find(a1, lambda y: y[0] in ("call", "dcall") and last(y[1]) == "end"))
+                return a0 == src or whole
+            for rb, ri, r in rel_ev:
+                if f.path_exists((b, i), lambda q, r=r: q is r, lambda q: False, lift=0) is None:
+                    continue
+                p = f.path_exists((b, i), lambda q, r=r: q is r, same_src, lift=0)
+                cnt = sum(1 for _b, _i, _e in f.calls() if last(_e.get("fn", "")) == "moveConstruct" and len(call_args(_e)) == 3 and _e["line"] <= e["line"])
+                chk.judge(p is None, "RELOCATE", "%s:raw-move#%d:source-destroyed-before-release" % (key, cnt), "%s:%d" % (f.file, e["line"]),
+                          "elements are moved out of %s with the raw moveConstruct and the buffer is released, but that source range is not destructed in between" % sx_str(src), p)
+    chk.shape(n >= 6, "RELOCATE", "releasing-methods>=6", "", "%d Array_ methods release the element buffer" % n)
 
 
 def _mutable_ret(f):
@@ -148,7 +233,16 @@ _C = "SimTKcommon/include/SimTKcommon/internal/CloneOnWritePtr.h"
 _R = "SimTKcommon/include/SimTKcommon/internal/ReferencePtr.h"
 _I = "SimTKcommon/include/SimTKcommon/internal/ReinitOnCopy.h"
 _K = "SimTKcommon/include/SimTKcommon/internal/ClonePtr.h"
+_A = "SimTKcommon/include/SimTKcommon/internal/Array.h"
 MUTATIONS = [
+    dict(name="seeded (sub-agent): insertGapAt moves the elements out first and destroys only those before the gap", arm=True, file=_A,
+         old="        moveConstructThenDestructSource(newdata, newdata+before, data());\n        // Copy the elements at and after the insertion point, leaving a gap\n        // of n elements.\n        moveConstructThenDestructSource(newdata+before+n,\n                                        newdata+before+n+after,\n                                        p); // i.e., pData+before",
+         new="        moveConstruct(newdata, newdata+before, data());\n        moveConstruct(newdata+before+n, newdata+before+n+after, p);\n        destruct(data(), p);",
+         expect="RELOCATE:insertGapAt"),
+    dict(name="shrink_to_fit copies the elements and frees the old buffer without destroying them", file=_A,
+         old="    T* newData = allocN(size());\n    moveConstructThenDestructSource(newData, newData+size(), data());\n    deallocateNoDestruct(); // data()=0, allocated()=0, size() unchanged",
+         new="    T* newData = allocN(size());\n    moveConstruct(newData, newData+size(), data());\n    deallocateNoDestruct(); // data()=0, allocated()=0, size() unchanged",
+         expect="RELOCATE:shrink_to_fit"),
     dict(name="CloneOnWritePtr::upd() forgets to detach", arm=True, file=_C,
          old="    T* upd() {detach(); return p;}", new="    T* upd() {return p;}", expect="HANDOUT:CloneOnWritePtr::upd()"),
     dict(name="release() hands out a shared object", file=_C,
